@@ -334,7 +334,9 @@ func genHist(t *rapid.T, delHeavy bool, maxOps int) HistCase {
 			if op.Kind == "put" {
 				op.Val = rapid.SampledFrom([]model.Bytes{[]byte("v1"), []byte("v2"), []byte("a"), {}, {0}, []byte("zz"),
 					// long values that share their first 128 / 200 bytes (equal-timestamp ties are decided by the whole value)
-					longVal(128, "x"), longVal(128, "y"), longVal(200, ""), longVal(200, "z")}).Draw(t, "val")
+					longVal(128, "x"), longVal(128, "y"), longVal(200, ""), longVal(200, "z"),
+					// values that LMDB keeps on overflow pages (more than half a page / more than a page)
+					longVal(2100, "p"), longVal(5000, "")}).Draw(t, "val")
 				if len(op.Val) == 0 && !c.Native {
 					c.ExcludedEmpty++
 					op.Val = model.Bytes("e")
